@@ -364,3 +364,41 @@ def template_text(fmt):
     if not fmt or fmt["pieces"] is None:
         return None
     return "".join(p[1] if p[0] == "lit" else "{}" for p in fmt["pieces"])
+
+
+# ----------------------------------------------------------------------------------------
+# actor message arms
+
+def actor_arms(B, F, action_adt):
+    """{variant name: (switch block, entry block of the arm, set of blocks of the arm)} for the message loop of an actor task"""
+    a = F.adts.get(action_adt)
+    if a is None:
+        return {}
+    names = [v["name"] for v in a["variants"]]
+    out = {}
+    for sb in B.switch_blocks():
+        e = B.cond(sb)
+        if e[0] != "discr":
+            continue
+        place = e[1]
+        if place["p"]:
+            last = place["p"][-1]
+            ty = last.get("ty") if isinstance(last, dict) else None
+        else:
+            ty = B.locals[place["l"]]["ty"]
+        if not ty or ty.split("<")[0] != action_adt:
+            continue
+        t = B.blocks[sb]["term"]
+        listed = {v: tg for v, tg in t["targets"]}
+        for i, n in enumerate(names):
+            tg = listed.get(i)
+            if tg is None:
+                if len(listed) == len(names) - 1:
+                    tg = t["otherwise"]
+                else:
+                    continue
+            if tg in B.dead:
+                continue
+            region = B.reach([tg], cut_blocks=[sb])
+            out[n] = (sb, tg, region)
+    return out
